@@ -3,6 +3,8 @@
 package aws
 
 import (
+	"time"
+
 	"github.com/atlassian/escalator/pkg/cloudprovider"
 	"github.com/aws/aws-sdk-go/service/autoscaling/autoscalingiface"
 	"github.com/aws/aws-sdk-go/service/ec2/ec2iface"
@@ -23,4 +25,9 @@ func (c *CloudProvider) VerifTerminateTries(id string) int {
 		return ng.terminateInstancesTries
 	}
 	return -1
+}
+
+// VerifSetFleetTimeout overrides the fleet readiness timeout of a node group.
+func (n *NodeGroup) VerifSetFleetTimeout(d time.Duration) {
+	n.config.AWSConfig.FleetInstanceReadyTimeout = d
 }
